@@ -229,6 +229,7 @@ theorem step_commit_shape (w : World) (i : Nat) (st : Stmt) :
         exact ⟨((ensureTx w i).sess i).snap.working, ((ensureTx w i).sess i).work, by simp, fun k => by simpa using doCommit_working _ _ _ _ _ _ hd k⟩
       · left; simp
   | readO => simp only [step]; simpa using hes (ensureTx w i)
+  | readHead => simp only [step]; simpa using hes (ensureTx w i)
   | writeO op =>
     simp only [step]
     split
